@@ -87,6 +87,10 @@ static const void* g_obj[N + 1];
 template <int I> struct FillObj { static void run(Inst& m) { g_obj[I] = &m.access<St<I>>(); FillObj<I - 1>::run(m); } };
 template <> struct FillObj<-1> { static void run(Inst&) {} };
 
+// the type-parameterised forms of the same calls: what = 0 immediateChangeTo<T>(), 1 changeTo<T>(), 2 isActive<T>() (result in *out)
+template <int I> struct TForm { static void run(Inst& m, int k, int what, bool* out) { if (k == I) { if (what == 0) m.template immediateChangeTo<St<I>>(); else if (what == 1) m.template changeTo<St<I>>(); else *out = m.template isActive<St<I>>(); } else TForm<I - 1>::run(m, k, what, out); } };
+template <> struct TForm<-1> { static void run(Inst&, int, int, bool*) {} };
+
 alignas(64) static unsigned char g_store[2][sizeof(Inst) + 64];
 static Inst* inst(int s = 0) { return reinterpret_cast<Inst*>(g_store[s]); }
 static EvA g_ev{1}; static QA g_q{2};
@@ -136,7 +140,12 @@ static void dispatch_sweep() {
 		// bring the machine to j (cheaply: replaying the pair (prev,j) is itself one of the pairs under test)
 		if (m.activeStateId() != j) { g_n = 0; m.immediateChangeTo(static_cast<ffsm2::StateID>(j)); if (m.activeStateId() != j) { violation("dispatch", rp, "N=%d: cannot reach state %d", N, j); return; } }
 		g_n = 0; g_over = false;
-		m.immediateChangeTo(static_cast<ffsm2::StateID>(k));
+		// rows j = 1 and j = N-2 use immediateChangeTo<T>(), row j = 2 uses changeTo<T>() followed by the processing half of update()
+		const int form = (j == 1 || j == N - 2) ? 1 : (j == 2 ? 2 : 0);
+		if (form == 1) TForm<N - 1>::run(m, k, 0, nullptr);
+		else if (form == 2) { TForm<N - 1>::run(m, k, 1, nullptr); if (m.activeStateId() != j) violation("dispatch-activity", rp, "N=%d: changeTo<St<%d>>() changed the active state at once", N, k); m.update(); // phases of j first: drop them from the trace
+			int w = 0; for (int i = 0; i < g_n; ++i) if (g_tr[i].meth == M_XG || g_tr[i].meth == M_EG || g_tr[i].meth == M_ENTER || g_tr[i].meth == M_REENTER || g_tr[i].meth == M_EXIT) g_tr[w++] = g_tr[i]; g_n = w; }
+		else m.immediateChangeTo(static_cast<ffsm2::StateID>(k));
 		++me().cases;
 		Rec want[4]; int n = 0;
 		want[n++] = Rec{static_cast<int16_t>(j), M_XG, 0, nullptr}; want[n++] = Rec{static_cast<int16_t>(k), M_EG, 0, nullptr};
@@ -144,6 +153,7 @@ static void dispatch_sweep() {
 		if (!expect_trace("immediateChangeTo", j, k, want, n, rp)) continue;
 		if (m.activeStateId() != k) { violation("dispatch-activity", rp, "N=%d: immediateChangeTo(%d) from %d leaves %d active", N, k, j, m.activeStateId()); continue; }
 		for (int q = 0; q < N; q += (N > 16 ? 7 : 1)) if (m.isActive(static_cast<ffsm2::StateID>(q)) != (q == k)) { violation("dispatch-isActive", rp, "N=%d: isActive(%d) wrong with %d active", N, q, k); break; }
+		if (j == 0 || j == N - 1) for (int q = 0; q < N; q += (N > 16 ? 5 : 1)) { bool a = false; TForm<N - 1>::run(m, q, 2, &a); if (a != (q == k)) { violation("dispatch-isActive", rp, "N=%d: isActive<St<%d>>() wrong with %d active", N, q, k); break; } }
 		// the phases reach k only (once per destination is enough: they do not depend on where we came from; do it for the first j and the neighbours)
 		if (j == 0 || j == k || j == N - 1 || j == k + 1) {
 			g_n = 0; m.update(); ++me().cases;
